@@ -498,6 +498,9 @@ func verifyCRLSignature(result *crlreader.CRLReadResult, chains *core.Certificat
 	var signatureCert *core.CertificateChainEntry
 	crlVerified := false
 	for _, certCandidate := range certCandidates {
+		if !isEntitledToSignCRLs(certCandidate) {
+			continue
+		}
 		strategies := result.HashAndVerifyStrategy
 		err := strategies.VerifyStrategy.VerifySignature(strategies.HashStrategy, certCandidate.Certificate.PublicKey, result.CalculatedSignature, result.Signature.Bytes)
 		if err == nil {
@@ -510,6 +513,20 @@ func verifyCRLSignature(result *crlreader.CRLReadResult, chains *core.Certificat
 		return nil, errors.New("can not verify CRL signature with given issuer certificates")
 	}
 	return signatureCert, nil
+}
+
+// isEntitledToSignCRLs checks if a certificate which matches the issuer of a crl is allowed to sign it:
+// the certificate which is checked for revocation can never issue its own crl, and if the key usage extension
+// is present it has to permit crl signing (rfc5280 section 4.2.1.3)
+func isEntitledToSignCRLs(certCandidate *core.CertificateChainEntry) bool {
+	if certCandidate.EndEntity {
+		return false
+	}
+	keyUsage := certCandidate.Certificate.KeyUsage
+	if keyUsage != 0 && keyUsage&x509.KeyUsageCRLSign == 0 {
+		return false
+	}
+	return true
 }
 
 func (R *Repository) DeleteTempFilesIfExist() {
